@@ -97,13 +97,22 @@ def cpoint(p):
             f"{clist(fields, lambda kv: f'({cstr(kv[0])}, {copt(kv[1], cnum)})')})")
 
 
-def real_point(tf, p):
+def real_point(tf, p, share=None):
+    """share: a cache of mapping objects; points of one batch whose tags (or fields) are equal are then built from ONE dict
+    object, as a caller writing `Point(tags=common)` in a loop does - the database must behave as if each had its own"""
     kw = {}
     if p["time"] is not None:
         kw["time"] = p.get("dt") or zoned_dt(p["time"])
     kw["measurement"] = p["meas"]
     kw["tags"] = dict(p["tags"])
     kw["fields"] = dict(p["fields"])
+    if share is not None:
+        for slot in ("tags", "fields"):
+            try:
+                key = (slot, repr(list(kw[slot].items())))
+            except Exception:
+                continue
+            kw[slot] = share.setdefault(key, kw[slot])
     return tf.Point(**kw)
 
 
